@@ -181,6 +181,9 @@ def run_symbolic(unit, z3_ms=10000, cvc5_ms=20000, both=False, exclude_contracts
         ts = 0.0
         for o in res.obligs:
             engine.discharge(o, z3_ms, cvc5_ms, both)
+            if o.status == 'unknown' and ('%s/%s' % (unit.name, o.label)) in engine.BASELINE:
+                # discharged on the unchanged tree: before it is reported as failing, rule out a solver budget effect
+                engine.discharge(o, z3_ms * 4, cvc5_ms * 2, False)
             ts += o.secs
             out['obligations'].append({'label': o.label, 'status': o.status, 'solver': o.solver, 'secs': round(o.secs, 4),
                                        'model': o.model, 'kind': o.meta.get('kind', 'post'), 'detail': o.detail,
